@@ -67,14 +67,19 @@ pub fn main() {
          one of the merged field nodes, null at the nearest nullable position, everything else unchanged; pairs of \
          faults exhaustively when the tree has <= 10 positions, 40 sampled pairs otherwise (errors whose position was \
          discarded by the other fault's propagation may be absent). Non-trivial = faulted execution whose reference has \
-         at least one error; distinct by (case hash, fault set)",
+         at least one error; distinct by (case hash, fault set). Subscription events: single-root subscriptions on S1 and on \
+         a dynamic schema built from the same model, every (resolver call, event) x {Err, null} injected alone (keyed by \
+         node id, so one event only) plus sampled pairs; every response of the stream is compared with the reference \
+         result of its own event",
     );
     run.assume("reference executor R1 implements spec §6.4.4 (errors and non-null propagation)");
     run.assume("for two simultaneous faults the spec lets an implementation drop an error whose position was nulled by the other; both outcomes are accepted for such errors only");
+    run.assume("whether a dynamic subscription keeps streaming after an event failed at a non-null root field is not asserted");
     let cases = run.scale(400, 12_000);
     let static_cases = run.scale(400, 12_000);
     run.set_floors(2000, 500);
     run.require_counter("faults_injected");
+    run.require_counter("subscription_event_responses_compared");
     let shards = n_shards(&run);
     let run = &run;
     crate::witness::c03_merged(run);
@@ -120,6 +125,7 @@ pub fn main() {
             });
         }
     });
+    crate::c27::c03_subscription_events(run);
     run.exhaustive(true);
     run.extra(
         "exhaustive_scope",
